@@ -59,6 +59,18 @@ class Interp:
         except Exception as ex:
             raise AnalysisError(f"tabulation: cannot evaluate {unparse(e)[:80]!r}: {type(ex).__name__}: {ex}")
 
+    def _materialise(self, e: ast.AST) -> list:
+        """The values of an iterable expression; a lazy iterator may raise only when it is consumed."""
+        it = self.ev(e)
+        try:
+            return list(it)
+        except (_Continue, _Break, _Raised, _Return, AnalysisError):
+            raise
+        except self.behaviours as ex:
+            raise _Raised(type(ex).__name__)
+        except Exception as ex:
+            raise AnalysisError(f"tabulation: cannot iterate {unparse(e)[:80]!r}: {type(ex).__name__}: {ex}")
+
     def _make_function(self, fd: ast.FunctionDef) -> Any:
         outer = self
         params = [a.arg for a in fd.args.args]
@@ -109,7 +121,7 @@ class Interp:
             if isinstance(s, ast.If):
                 self.run(s.body if self.ev(s.test) else s.orelse)
             elif isinstance(s, ast.For):
-                for v in list(self.ev(s.iter)):
+                for v in self._materialise(s.iter):
                     self._bind(s.target, v)
                     try:
                         self.run(s.body)
